@@ -193,6 +193,23 @@ enum Ev {
 type SendResult = std::result::Result<diameter::transport::client::ResponseFuture, ()>;
 
 /// polls every future that has been handed out and is not known to be complete, once, without waiting
+/// requests and answers are not all Credit-Control: the command (and application) is picked by the hop-by-hop id, so that
+/// every command the library knows - watchdogs, capabilities exchange, disconnect - goes through the client as a request
+fn cmd_app_of(hop: u32) -> (CommandCode, ApplicationId) {
+    match hop % 12 {
+        0 | 1 | 2 => (CommandCode::CreditControl, ApplicationId::CreditControl),
+        3 => (CommandCode::DeviceWatchdog, ApplicationId::Common),
+        4 => (CommandCode::CapabilitiesExchange, ApplicationId::Common),
+        5 => (CommandCode::DisconnectPeer, ApplicationId::Common),
+        6 => (CommandCode::ReAuth, ApplicationId::Gx),
+        7 => (CommandCode::SessionTerminate, ApplicationId::Rx),
+        8 => (CommandCode::AbortSession, ApplicationId::Rx),
+        9 => (CommandCode::SpendingLimit, ApplicationId::Sy),
+        10 => (CommandCode::Accounting, ApplicationId::Accounting),
+        _ => (CommandCode::AA, ApplicationId::Rx),
+    }
+}
+
 fn observe(results: &mut Vec<Option<SendResult>>, resolved: &mut Vec<Option<String>>, at: usize) {
     use std::future::Future;
     resolved.resize(results.len(), None);
@@ -313,7 +330,7 @@ pub fn run(st: &State, t: &mut Toks) -> PResult<String> {
                             results[idx] = Some(jh.await.unwrap_or(Err(())));
                         }
                         conns[conns.len() - 1].0.close_gate();
-                        let mut req = DiameterMessage::new(CommandCode::CreditControl, ApplicationId::CreditControl, 0x80, h, 7, Arc::clone(&dict));
+                        let mut req = DiameterMessage::new(cmd_app_of(h).0, cmd_app_of(h).1, 0x80, h, 7, Arc::clone(&dict));
                         req.add_avp(264, None, M, Identity::new("host.example.com").into());
                         let c = Arc::clone(&client);
                         let jh = tokio::spawn(async move {
@@ -330,7 +347,7 @@ pub fn run(st: &State, t: &mut Toks) -> PResult<String> {
                         }
                         conns[conns.len() - 1].0.allow(None);
                         use chrono::TimeZone;
-                        let mut req = DiameterMessage::new(CommandCode::CreditControl, ApplicationId::CreditControl, 0x80, h, 7, Arc::clone(&dict));
+                        let mut req = DiameterMessage::new(cmd_app_of(h).0, cmd_app_of(h).1, 0x80, h, 7, Arc::clone(&dict));
                         req.add_avp(264, None, M, Identity::new("host.example.com").into());
                         req.add_avp(55, None, M, Time::new(chrono::Utc.timestamp_opt(2_208_988_800, 0).single().expect("time")).into());
                         let mut c = client.lock().await;
@@ -340,7 +357,7 @@ pub fn run(st: &State, t: &mut Toks) -> PResult<String> {
                         unencodable.push(results.len() - 1);
                     }
                     Ev::PL(h, n) => {
-                        let mut ans = DiameterMessage::new(CommandCode::CreditControl, ApplicationId::CreditControl, 0, h, emitted[sel], Arc::clone(&dict));
+                        let mut ans = DiameterMessage::new(cmd_app_of(h).0, cmd_app_of(h).1, 0, h, emitted[sel], Arc::clone(&dict));
                         ans.add_avp(268, None, M, Unsigned32::new(2001).into());
                         ans.add_avp(25, None, 0, OctetString::new(vec![0x5a; n]).into());
                         emitted[sel] += 1;
@@ -436,7 +453,7 @@ pub fn run(st: &State, t: &mut Toks) -> PResult<String> {
                             drop(scratch.lock().await);
                         }
                         for i in 0..n {
-                            let mut req = DiameterMessage::new(CommandCode::CreditControl, ApplicationId::CreditControl, 0x80, hop0.wrapping_add(i as u32), 7, Arc::clone(&dict));
+                            let mut req = DiameterMessage::new(cmd_app_of(hop0.wrapping_add(i as u32)).0, cmd_app_of(hop0.wrapping_add(i as u32)).1, 0x80, hop0.wrapping_add(i as u32), 7, Arc::clone(&dict));
                             req.add_avp(264, None, M, Identity::new("host.example.com").into());
                             let r = c.send_message(req).await.map_err(|_| ());
                             results.push(Some(r));
@@ -450,7 +467,7 @@ pub fn run(st: &State, t: &mut Toks) -> PResult<String> {
                         conns[conns.len() - 1].0.allow(None);
                         let mut c = client.lock().await;
                         for i in 0..n {
-                            let mut req = DiameterMessage::new(CommandCode::CreditControl, ApplicationId::CreditControl, 0x80, hop0.wrapping_add(i as u32), 7, Arc::clone(&dict));
+                            let mut req = DiameterMessage::new(cmd_app_of(hop0.wrapping_add(i as u32)).0, cmd_app_of(hop0.wrapping_add(i as u32)).1, 0x80, hop0.wrapping_add(i as u32), 7, Arc::clone(&dict));
                             req.add_avp(264, None, M, Identity::new("host.example.com").into());
                             let r = c.send_message(req).await.map_err(|_| ());
                             results.push(Some(r));
@@ -462,7 +479,7 @@ pub fn run(st: &State, t: &mut Toks) -> PResult<String> {
                         }
                     }
                     Ev::P(h, cut, gap) => {
-                        let mut ans = DiameterMessage::new(CommandCode::CreditControl, ApplicationId::CreditControl, 0, h, emitted[sel], Arc::clone(&dict));
+                        let mut ans = DiameterMessage::new(cmd_app_of(h).0, cmd_app_of(h).1, 0, h, emitted[sel], Arc::clone(&dict));
                         ans.add_avp(268, None, M, Unsigned32::new(2001).into());
                         emitted[sel] += 1;
                         let mut b = Vec::new();
@@ -485,7 +502,7 @@ pub fn run(st: &State, t: &mut Toks) -> PResult<String> {
                     }
                     Ev::PT(h, cut) => {
                         // only the first `cut` octets of an answer (the stream is about to be cut)
-                        let mut ans = DiameterMessage::new(CommandCode::CreditControl, ApplicationId::CreditControl, 0, h, 0xffff, Arc::clone(&dict));
+                        let mut ans = DiameterMessage::new(cmd_app_of(h).0, cmd_app_of(h).1, 0, h, 0xffff, Arc::clone(&dict));
                         ans.add_avp(268, None, M, Unsigned32::new(2001).into());
                         let mut b = Vec::new();
                         ans.encode_to(&mut b).expect("encode answer");
@@ -496,6 +513,22 @@ pub fn run(st: &State, t: &mut Toks) -> PResult<String> {
                         "eof" => conns[sel].0.end(false),
                         "reset" => conns[sel].0.end(true),
                         "garbage" => conns[sel].0.push(&[1, 0, 0, 0, 9, 9, 9, 9]),
+                        // a frame announcing more than the reader accepts (16 MiB - 1), followed by what could pass for frames
+                        "oversized" => {
+                            let mut f = vec![1u8, 0xff, 0xff, 0xff];
+                            for _ in 0..6 {
+                                f.extend_from_slice(&[1, 0, 0, 20, 0, 0, 1, 16, 0, 0, 0, 4, 0, 0, 0, 9, 0, 0, 0, 9]);
+                            }
+                            conns[sel].0.push(&f);
+                        }
+                        // a frame announcing less than a header (19), followed by the same
+                        "short" => {
+                            let mut f = vec![1u8, 0, 0, 19];
+                            for _ in 0..6 {
+                                f.extend_from_slice(&[1, 0, 0, 20, 0, 0, 1, 16, 0, 0, 0, 4, 0, 0, 0, 9, 0, 0, 0, 9]);
+                            }
+                            conns[sel].0.push(&f);
+                        }
                         _ => {
                             // a well-framed message carrying an AVP the dictionary does not know
                             let mut f = vec![1u8, 0, 0, 32, 0, 0, 1, 16, 0, 0, 0, 4, 0, 0, 0, 1, 0, 0, 0, 2];
